@@ -60,22 +60,30 @@ impl<T: 'static + GcManaged + ?Sized> GcBox<T> {
     }
 
     fn mark(&self) {
+        #[cfg(feature = "verif_hooks")]
+        verif::on_trace_call(self as *const _ as *const () as usize, false);
         if self.colour.replace(Colour::Grey) == Colour::Grey {
             return;
         }
         if cfg!(feature = "debug_trace_gc") {
             println!("{:?} mark", self as *const _);
         }
+        #[cfg(feature = "verif_hooks")]
+        let _verif_guard = verif::enter_box(self as *const _ as *const () as usize);
         self.data.mark();
     }
 
     fn blacken(&self) {
+        #[cfg(feature = "verif_hooks")]
+        verif::on_trace_call(self as *const _ as *const () as usize, true);
         if self.colour.replace(Colour::Black) == Colour::Black {
             return;
         }
         if cfg!(feature = "debug_trace_gc") {
             println!("{:?} blacken", self as *const _);
         }
+        #[cfg(feature = "verif_hooks")]
+        let _verif_guard = verif::enter_box(self as *const _ as *const () as usize);
         self.data.blacken();
     }
 
@@ -122,6 +130,8 @@ impl<T: 'static + GcManaged + ?Sized> Root<T> {
 
 impl<T: GcManaged + ?Sized> Root<T> {
     fn gc_box(&self) -> &GcBox<T> {
+        #[cfg(feature = "verif_hooks")]
+        verif::check_live(self.ptr.as_ptr() as *const () as usize, "Root");
         unsafe { self.ptr.as_ref() }
     }
 
@@ -286,6 +296,8 @@ impl<T: 'static + GcManaged> Gc<T> {
 
 impl<T: 'static + GcManaged + ?Sized> Gc<T> {
     fn gc_box(&self) -> &GcBox<T> {
+        #[cfg(feature = "verif_hooks")]
+        verif::check_live(self.ptr.as_ptr() as *const () as usize, "Gc");
         unsafe { self.ptr.as_ref() }
     }
 }
@@ -356,6 +368,12 @@ impl Heap {
     }
 
     fn allocate_raw<T: 'static + GcManaged>(&mut self, data: T) -> GcBoxPtr<T> {
+        #[cfg(feature = "verif_hooks")]
+        let verif_before = (self.bytes_allocated, self.collection_threshold, verif::collections());
+        #[cfg(feature = "verif_hooks")]
+        if verif::mode_is_always() {
+            self.collect();
+        }
         if cfg!(any(debug_assertions, feature = "debug_stress_gc")) {
             self.collect();
         } else {
@@ -375,6 +393,15 @@ impl Heap {
 
         self.bytes_allocated += size;
 
+        #[cfg(feature = "verif_hooks")]
+        verif::on_alloc(
+            gc_box_ptr.as_ptr() as *const () as usize,
+            any::type_name::<T>(),
+            size,
+            verif_before,
+            (self.bytes_allocated, self.collection_threshold),
+        );
+
         if cfg!(feature = "debug_trace_gc") {
             let new_ptr = self.objects.last().unwrap();
             println!(
@@ -389,13 +416,38 @@ impl Heap {
     }
 
     fn collect(&mut self) {
+        #[cfg(feature = "verif_hooks")]
+        if verif::mode_is_never() {
+            return;
+        }
         if cfg!(feature = "debug_trace_gc") {
             println!("-- gc begin")
         }
 
+        #[cfg(feature = "verif_hooks")]
+        verif::on_collect_begin(
+            self.objects
+                .iter()
+                .map(|obj| {
+                    (
+                        obj.as_ref().get_ref() as *const _ as *const () as usize,
+                        obj.num_roots.get(),
+                        mem::size_of_val(&obj.data),
+                    )
+                })
+                .collect(),
+        );
         self.mark_roots();
         self.trace_references();
         let bytes_freed = self.sweep();
+        #[cfg(feature = "verif_hooks")]
+        verif::on_collect_end(
+            self.objects
+                .iter()
+                .map(|obj| obj.as_ref().get_ref() as *const _ as *const () as usize)
+                .collect(),
+            bytes_freed,
+        );
 
         let prev_bytes_allocated = self.bytes_allocated;
         self.bytes_allocated -= bytes_freed;
@@ -455,6 +507,18 @@ impl Heap {
             })
             .sum();
 
+        #[cfg(feature = "verif_hooks")]
+        if verif::quarantine_enabled() {
+            let mut kept = Vec::with_capacity(self.objects.len());
+            for obj in self.objects.drain(..) {
+                if obj.colour.get() == Colour::White {
+                    verif::quarantine(obj);
+                } else {
+                    kept.push(obj);
+                }
+            }
+            self.objects = kept;
+        }
         self.objects.retain(|obj| obj.colour.get() == Colour::Black);
 
         bytes_marked
@@ -520,5 +584,299 @@ impl<T: GcManaged> GcManaged for &[T] {
         for i in 0..self.len() {
             self[i].blacken();
         }
+    }
+}
+
+/// Verification hooks (feature `verif_hooks`): observation and scheduling of the collector for the
+/// /verif machinery. Nothing in here is compiled without the feature.
+#[cfg(feature = "verif_hooks")]
+pub mod verif {
+    use super::*;
+    use std::collections::{HashMap as StdHashMap, HashSet};
+
+    #[derive(Copy, Clone, PartialEq, Eq, Debug)]
+    pub enum Mode {
+        /// The build's own policy (every allocation in dev builds, paced in release builds).
+        Default,
+        /// Collect at every allocation, whatever the build.
+        Always,
+        /// Never collect.
+        Never,
+    }
+
+    #[derive(Clone, Debug)]
+    pub struct AllocEvent {
+        pub type_name: &'static str,
+        pub size: usize,
+        pub bytes_before: usize,
+        pub threshold_before: usize,
+        pub collected: bool,
+        pub bytes_after: usize,
+        pub threshold_after: usize,
+    }
+
+    #[derive(Clone, Debug, Default)]
+    pub struct CollectionDump {
+        /// (address, num_roots, size) of every box, in heap order, before marking.
+        pub objects: Vec<(usize, usize, usize)>,
+        /// (parent address or 0 for the collector itself, child address, is_blacken)
+        pub calls: Vec<(usize, usize, bool)>,
+        pub retained: Vec<usize>,
+        pub bytes_freed: usize,
+    }
+
+    struct State {
+        mode: Mode,
+        quarantine_on: bool,
+        quarantine: Vec<Pin<Box<GcBox<dyn GcManaged>>>>,
+        freed: HashSet<usize>,
+        uaf: Vec<String>,
+        types: StdHashMap<usize, &'static str>,
+        collections: usize,
+        log_allocs: bool,
+        allocs: Vec<AllocEvent>,
+        dump_collections: bool,
+        in_collection: bool,
+        parents: Vec<usize>,
+        current: CollectionDump,
+        dumps: Vec<CollectionDump>,
+        max_dumps: usize,
+    }
+
+    thread_local! {
+        static STATE: RefCell<State> = RefCell::new(State {
+            mode: Mode::Default,
+            quarantine_on: false,
+            quarantine: Vec::new(),
+            freed: HashSet::new(),
+            uaf: Vec::new(),
+            types: StdHashMap::new(),
+            collections: 0,
+            log_allocs: false,
+            allocs: Vec::new(),
+            dump_collections: false,
+            in_collection: false,
+            parents: Vec::new(),
+            current: CollectionDump::default(),
+            dumps: Vec::new(),
+            max_dumps: 0,
+        });
+    }
+
+    pub fn set_mode(mode: Mode) {
+        STATE.with(|s| s.borrow_mut().mode = mode);
+    }
+
+    pub fn set_quarantine(on: bool) {
+        STATE.with(|s| s.borrow_mut().quarantine_on = on);
+    }
+
+    pub fn set_log_allocs(on: bool) {
+        STATE.with(|s| s.borrow_mut().log_allocs = on);
+    }
+
+    /// Record a full dump (objects, trace calls, retained set) of up to `max` collections.
+    pub fn set_dump_collections(max: usize) {
+        STATE.with(|s| {
+            let mut s = s.borrow_mut();
+            s.dump_collections = max > 0;
+            s.max_dumps = max;
+        });
+    }
+
+    pub fn take_allocs() -> Vec<AllocEvent> {
+        STATE.with(|s| mem::take(&mut s.borrow_mut().allocs))
+    }
+
+    pub fn take_dumps() -> Vec<CollectionDump> {
+        STATE.with(|s| mem::take(&mut s.borrow_mut().dumps))
+    }
+
+    pub fn take_uaf() -> Vec<String> {
+        STATE.with(|s| mem::take(&mut s.borrow_mut().uaf))
+    }
+
+    pub fn collections() -> usize {
+        STATE.with(|s| s.borrow().collections)
+    }
+
+    pub fn type_of(addr: usize) -> Option<&'static str> {
+        STATE.with(|s| s.borrow().types.get(&addr).copied())
+    }
+
+    /// Drop everything in quarantine (call only when no reference into it can be used any more).
+    pub fn purge_quarantine() {
+        let boxes = STATE.with(|s| {
+            let mut s = s.borrow_mut();
+            s.freed.clear();
+            mem::take(&mut s.quarantine)
+        });
+        drop(boxes);
+    }
+
+    pub fn force_collect() {
+        HEAP.with(|heap| heap.borrow_mut().collect());
+    }
+
+    #[derive(Clone, Debug, Default)]
+    pub struct Stats {
+        pub bytes_allocated: usize,
+        pub threshold: usize,
+        pub num_objects: usize,
+        pub sum_roots: usize,
+        pub by_type: Vec<(String, usize, usize)>,
+        pub collections: usize,
+    }
+
+    pub fn stats() -> Stats {
+        HEAP.with(|heap| {
+            let heap = heap.borrow();
+            let mut by_type: StdHashMap<&'static str, (usize, usize)> = StdHashMap::new();
+            let mut sum_roots = 0;
+            for obj in heap.objects.iter() {
+                let addr = obj.as_ref().get_ref() as *const _ as *const () as usize;
+                let name = type_of(addr).unwrap_or("?");
+                let e = by_type.entry(name).or_insert((0, 0));
+                e.0 += 1;
+                e.1 += obj.num_roots.get();
+                sum_roots += obj.num_roots.get();
+            }
+            let mut by_type: Vec<(String, usize, usize)> = by_type
+                .into_iter()
+                .map(|(k, v)| (k.to_string(), v.0, v.1))
+                .collect();
+            by_type.sort();
+            Stats {
+                bytes_allocated: heap.bytes_allocated,
+                threshold: heap.collection_threshold,
+                num_objects: heap.objects.len(),
+                sum_roots,
+                by_type,
+                collections: collections(),
+            }
+        })
+    }
+
+    pub(super) fn mode_is_always() -> bool {
+        STATE.with(|s| s.borrow().mode == Mode::Always)
+    }
+
+    pub(super) fn mode_is_never() -> bool {
+        STATE.with(|s| s.borrow().mode == Mode::Never)
+    }
+
+    pub(super) fn quarantine_enabled() -> bool {
+        STATE.with(|s| s.borrow().quarantine_on)
+    }
+
+    pub(super) fn quarantine(obj: Pin<Box<GcBox<dyn GcManaged>>>) {
+        let addr = obj.as_ref().get_ref() as *const _ as *const () as usize;
+        STATE.with(|s| {
+            let mut s = s.borrow_mut();
+            s.freed.insert(addr);
+            s.quarantine.push(obj);
+        });
+    }
+
+    pub(super) fn check_live(addr: usize, via: &str) {
+        // try_with/try_borrow: handles may be dropped during thread teardown or while the state is
+        // borrowed by a hook; those accesses are not checked.
+        let _ = STATE.try_with(|s| {
+            if let Ok(mut s) = s.try_borrow_mut() {
+                if s.quarantine_on && !s.freed.is_empty() && s.freed.contains(&addr) {
+                    let name = s.types.get(&addr).copied().unwrap_or("?");
+                    if s.uaf.len() < 64 {
+                        s.uaf.push(format!("UafDeref {} via {}", name, via));
+                    }
+                }
+            }
+        });
+    }
+
+    pub(super) fn on_alloc(
+        addr: usize,
+        type_name: &'static str,
+        size: usize,
+        before: (usize, usize, usize),
+        after: (usize, usize),
+    ) {
+        STATE.with(|s| {
+            let mut s = s.borrow_mut();
+            s.types.insert(addr, type_name);
+            if s.log_allocs {
+                let collected = s.collections != before.2;
+                s.allocs.push(AllocEvent {
+                    type_name,
+                    size,
+                    bytes_before: before.0,
+                    threshold_before: before.1,
+                    collected,
+                    bytes_after: after.0,
+                    threshold_after: after.1,
+                });
+            }
+        });
+    }
+
+    pub(super) fn on_collect_begin(objects: Vec<(usize, usize, usize)>) {
+        STATE.with(|s| {
+            let mut s = s.borrow_mut();
+            s.collections += 1;
+            if s.dump_collections && s.dumps.len() < s.max_dumps {
+                s.in_collection = true;
+                s.parents.clear();
+                s.current = CollectionDump {
+                    objects,
+                    ..Default::default()
+                };
+            }
+        });
+    }
+
+    pub(super) fn on_collect_end(retained: Vec<usize>, bytes_freed: usize) {
+        STATE.with(|s| {
+            let mut s = s.borrow_mut();
+            if s.in_collection {
+                s.in_collection = false;
+                let mut dump = mem::take(&mut s.current);
+                dump.retained = retained;
+                dump.bytes_freed = bytes_freed;
+                s.dumps.push(dump);
+            }
+        });
+    }
+
+    pub(super) fn on_trace_call(addr: usize, is_blacken: bool) {
+        STATE.with(|s| {
+            let mut s = s.borrow_mut();
+            if s.in_collection {
+                let parent = s.parents.last().copied().unwrap_or(0);
+                s.current.calls.push((parent, addr, is_blacken));
+            }
+        });
+    }
+
+    pub struct BoxGuard(bool);
+
+    impl Drop for BoxGuard {
+        fn drop(&mut self) {
+            if self.0 {
+                STATE.with(|s| {
+                    s.borrow_mut().parents.pop();
+                });
+            }
+        }
+    }
+
+    pub(super) fn enter_box(addr: usize) -> BoxGuard {
+        STATE.with(|s| {
+            let mut s = s.borrow_mut();
+            if s.in_collection {
+                s.parents.push(addr);
+                BoxGuard(true)
+            } else {
+                BoxGuard(false)
+            }
+        })
     }
 }
